@@ -156,9 +156,9 @@ def stripTrailingZeros (ds : List Nat) : List Nat := (ds.reverse.dropWhile (· =
 
 /-- optional fraction: `.` digits+ -/
 def parseFrac (t : List Nat) : Option (List Nat × List Nat) :=
-  match t with
-  | 46 :: r => if (spanDigits r).1.isEmpty then none else some (spanDigits r)
-  | _ => some ([], t)
+  if t.head? = some 46 then
+    (if (spanDigits t.tail).1.isEmpty then none else some (spanDigits t.tail))
+  else some ([], t)
 
 /-- optional exponent `(e|E) (+|-)? digits+`, which must end the text -/
 def parseExp (t : List Nat) : Option Int :=
@@ -166,10 +166,10 @@ def parseExp (t : List Nat) : Option Int :=
   | [] => some 0
   | c :: r =>
     if c == 101 || c == 69 then
-      let sr : Bool × List Nat := match r with
-        | 45 :: r' => (true, r')
-        | 43 :: r' => (false, r')
-        | _ => (false, r)
+      let sr : Bool × List Nat :=
+        if r.head? = some 45 then (true, r.tail)
+        else if r.head? = some 43 then (false, r.tail)
+        else (false, r)
       let ep := spanDigits sr.2
       if ep.1.isEmpty then none
       else if !ep.2.isEmpty then none
@@ -188,9 +188,7 @@ def mkDec (ip fp : List Nat) (e : Int) : Nat × Int :=
     `some (neg, sig, exp)` with value `(-1)^neg · sig · 10^exp`, `sig` without trailing zeros;
     `none` if the text is not a JSON number. -/
 def parseDecText (t : List Nat) : Option (Bool × Nat × Int) :=
-  let st : Bool × List Nat := match t with
-    | 45 :: r => (true, r)
-    | _ => (false, t)
+  let st : Bool × List Nat := if t.head? = some 45 then (true, t.tail) else (false, t)
   let ip := spanDigits st.2
   if ip.1.isEmpty then none
   else if decide (1 < ip.1.length) && ip.1.head? == some 0 then none
